@@ -111,7 +111,7 @@ def run(ctx):
         for ev in pool.imap_unordered(_rand_events, jobs):
             events.extend(ev)
     for e in [e for e in events if "exc" in e]:
-        ctx.violation("%s/raised" % e["ev"], "%s on graph %s raised %s" % (e["ev"], e["g"], e["exc"]), e)
+        ctx.growth("%s/raised" % e["ev"], "%s on graph %s raised %s" % (e["ev"], e["g"], e["exc"]), e)
     events = [e for e in events if "exc" not in e]
     bad_wire = [e for e in events if (e["ev"] in ("dist", "btw") and e["d"] is None)]
     for e in bad_wire:
@@ -121,7 +121,8 @@ def run(ctx):
     rej = ctx.tlc_trace("RoutingTrace", events, chunks=16, label="random graphs trace")
     for i, clause in rej.items():
         e = byid[i]
-        ctx.violation("%s/%s/%s" % (e["ev"], clause, rc.sig_graph(e)), "recorded %s on graph %s (n=%d): clause %s; event %s" %
+        # sub_network / distanceBtwPts are growth of the routing specification, not part of the listed property
+        (ctx.growth if e["ev"] in ("subnet", "btw") else ctx.violation)("%s/%s/%s" % (e["ev"], clause, rc.sig_graph(e)), "recorded %s on graph %s (n=%d): clause %s; event %s" %
                       (e["ev"], e["g"], e["n"], clause, {k: v for k, v in e.items() if k not in ("g",)}), e)
     for e in events:
         if e["ev"] == "table":
